@@ -79,3 +79,7 @@ INVARIANT EmitVerdict
 
 def validate_ctrl(traces, tag='cl'):
     return validate('Trace_CtrlLife', traces, CL_CFG, tag)
+
+
+def validate_counts(traces, tag='cnt'):
+    return validate('Trace_Counts', traces, CL_CFG, tag)
